@@ -27,6 +27,9 @@ class Exporter:
         self.bits = bits if bits is not None else Bits()
         self.cache = {}
         self.nodes = 0
+        # every exported node is kept referenced for the life time of the exporter: the cache is keyed by node
+        # identifiers, and a manager may hand the identifier of a collected node to a different function
+        self.keep = []
 
     def export(self, u):
         bdd = self.bdd
@@ -70,6 +73,7 @@ class Exporter:
             if hi_n:
                 th = z3.Not(th)
             cache[k] = z3.If(bits(v.var), th, tl)
+            self.keep.append(v)
             self.nodes += 1
             stack.pop()
         t = cache[int(root)]
